@@ -30,6 +30,27 @@ class AnalysisError(Exception):
     pass
 
 
+_DOMINATION: dict[str, list[tuple[str, ...]]] | None = None
+
+
+def domination() -> dict[str, list[tuple[str, ...]]]:
+    """value rule -> the families of syntactic rules it dominates, read off the `ctx.established((families), construct, "<value rule>")`
+    calls of the checker's own source (so the table cannot drift from them)"""
+    global _DOMINATION
+    if _DOMINATION is None:
+        import ast
+        _DOMINATION = {}
+        here = Path(__file__).resolve().parent
+        for f in sorted(list((here / "props").glob("*.py")) + list((here / "rules").glob("*.py"))):
+            for n in ast.walk(ast.parse(f.read_text())):
+                if isinstance(n, ast.Call) and isinstance(n.func, ast.Attribute) and n.func.attr == "established" and len(n.args) == 3 \
+                        and isinstance(n.args[0], ast.Tuple) and isinstance(n.args[2], ast.Constant):
+                    fams = tuple(e.value for e in n.args[0].elts if isinstance(e, ast.Constant))
+                    for by in str(n.args[2].value).split(" + "):
+                        _DOMINATION.setdefault(by.replace(" (tabulated)", "").strip(), []).append(fams)
+    return _DOMINATION
+
+
 @dataclass
 class Ctx:
     prop: str
@@ -44,6 +65,7 @@ class Ctx:
     t0: float = field(default_factory=time.time)
     _seen: set = field(default_factory=set)
     _established: list = field(default_factory=list)
+    _undecided: set = field(default_factory=set)
 
     # -- recording ----------------------------------------------------------
     def established(self, rule_prefixes, construct_prefix: str, by: str) -> None:
@@ -66,6 +88,13 @@ class Ctx:
             if by is not None:
                 verdict, nontrivial = PASS, False
                 detail = f"established by {by} (values on every case); the syntactic rule alone would say: {detail}"
+            else:
+                und = self._is_undecided(rule)
+                if und is not None:
+                    # the rule that decides the values of this family could not evaluate the changed code, and the way the code is written is
+                    # not one this rule knows to be right: that is no evidence of a wrong value - no verdict
+                    verdict, nontrivial = UNVERIFIED, False
+                    detail = f"{und} is outside its interpreter on this tree and the syntactic rule does not recognise the form: {detail}"
         key = (rule, construct, verdict, detail)
         if key in self._seen:          # the same obligation reached along another path
             return verdict == PASS
@@ -73,7 +102,22 @@ class Ctx:
         self.obs.append(Ob(rule, construct, verdict, detail, site, nontrivial))
         return verdict == PASS
 
+    def _is_undecided(self, rule: str) -> str | None:
+        for v in sorted(self._undecided):
+            if any(rule.startswith(f) for fams in domination().get(v, ()) for f in fams):
+                return v
+        return None
+
     def unverified(self, rule: str, construct: str, detail: str, site: str = "") -> None:
+        if detail.startswith("outside the checker's interpreter: Raised:"):
+            # not a limit of the interpreter: the analysed code reached a `raise` (or a standard-library call on plain values raised) on a case
+            # of a value table where the rule expects a value - cases where an exception is due are caught by the rules themselves
+            self.ob(rule, construct, False, "the analysed code raises an exception on a case where the tabulation expects a value: " + detail.split("Raised:", 1)[1].strip(), site)
+            return
+        if detail.startswith("outside the "):           # "outside the checker's interpreter" / "outside the MIR evaluator": a value rule without a verdict
+            from . import sem
+            if sem.reference_available() and sem.changed_files():
+                self._undecided.add(rule)
         by = self._is_established(rule, construct)
         if by is not None:
             self.obs.append(Ob(rule, construct, PASS, f"established by {by} (values on every case); the syntactic rule does not recognise the form: {detail}", site, False))
